@@ -34,14 +34,22 @@ Inductive tfield :=
 | FSigTime                                 (* RRSIG/SIG times: YYYYMMDDHHMMSS *)
 | FEui (n : nat)                           (* EUI48 / EUI64: n octets as hex pairs joined by "-" *)
 | FFmtHex                                  (* NID nodeid / L64 locator64: xxxx:xxxx:xxxx:xxxx, kept as text *)
-| FOct16.                                  (* CH A address: f"{address:o}" / get_uint16(base=8) *)
+| FOct16                                   (* CH A address: f"{address:o}" / get_uint16(base=8) *)
+| FQOpt                                    (* ISDN subaddress: optional last character-string (get_remaining(max_tokens=1)) *)
+| FHexStr                                  (* HIP hit: one token, get_string + unhexlify *)
+| FB64Tok (maxlen : Z)                     (* HIP / TKEY key: one token, get_string + b64decode, printed unbroken *)
+| FNamesRest                               (* HIP rendezvous servers: the remaining tokens as names *)
+| FNameNoRel                               (* TKEY algorithm: tok.get_name(relativize=False), no origin *)
+| FB64RestOpt.                             (* TKEY other data: concatenate_remaining_identifiers(True) + b64decode,
+                                              printed unbroken and only when not empty *)
 
 Inductive tval :=
 | VInt (z : Z)
 | VBytes (b : list Z)
 | VName (n : name)
 | VStrs (l : list (list Z))
-| VWindows (ws : list (Z * list Z)).
+| VWindows (ws : list (Z * list Z))
+| VNames (l : list name).
 
 Record style := mkStyle {
   s_origin : option name; s_relativize : bool;
@@ -643,7 +651,7 @@ Definition eui_from_text (n : nat) (t : list Z) : res (list Z) :=
     end.
 
 (* dns.rdtypes.util.parse_formatted_hex(formatted, 4, 4, ":") as a check (NID and L64 keep the text itself
-   and only validate it): 19 characters, four groups of hexadecimal digits (fix 19725b9: digits only, not
+   and only validate it): 19 characters, four groups of hexadecimal digits (fix 18da675: digits only, not
    everything int(.., 16) accepts) followed by ":" except after the last one *)
 Definition is_hexdigit (c : Z) : bool :=
   ((48 <=? c) && (c <=? 57)) || ((97 <=? c) && (c <=? 102)) || ((65 <=? c) && (c <=? 70)).
@@ -703,17 +711,26 @@ Definition print_field (st : style) (f : tfield) (v : tval) : res (list Z) :=
   | FEui _, VBytes b => Ok (eui_to_text b)
   | FFmtHex, VBytes t => Ok t
   | FOct16, VInt z => Ok (print_base 8 z)
+  | FQOpt, VBytes b => Ok (if is_nil b then [] else 32 :: quote b)
+  | FHexStr, VBytes b => Ok (hexlify b)
+  | FB64Tok _, VBytes b => Ok (b64encode b)
+  | FNamesRest, VNames l => do ts <- map_res (name_to_styled_text st) l; Ok (flat_map (fun t => 32 :: t) ts)
+  | FNameNoRel, VName n => name_to_styled_text st n
+  | FB64RestOpt, VBytes b => Ok (if is_nil b then [] else 32 :: b64encode b)
   | _, _ => Internal eBadCase
   end.
+
+(* the texts of the bitmap and of the optional / list-valued last fields bring their own leading blank *)
+Definition field_sep (f : tfield) : list Z :=
+  match f with FBitmap | FQOpt | FNamesRest | FB64RestOpt => [] | _ => [32] end.
 
 Fixpoint print_fields (st : style) (fs : list tfield) (vs : list tval) : res (list Z) :=
   match fs, vs with
   | [], [] => Ok []
   | [f], [v] => print_field st f v
   | f :: fs', v :: vs' =>
-      (* the bitmap text brings its own leading blank *)
       do a <- print_field st f v; do b <- print_fields st fs' vs';
-      Ok (a ++ (match fs' with FBitmap :: _ => [] | _ => [32] end) ++ b)
+      Ok (a ++ (match fs' with f2 :: _ => field_sep f2 | [] => [32] end) ++ b)
   | _, _ => Internal eBadCase
   end.
 
@@ -766,6 +783,19 @@ Definition parse_field (c : pctx) (f : tfield) (st : tstate) : res (tval * tstat
   | FEui n => do ts <- get_string st 0; do b <- eui_from_text n (fst ts); Ok (VBytes b, snd ts)
   | FFmtHex => do ts <- get_identifier st; Ok (VBytes (fst ts), snd ts)
   | FOct16 => do vs <- get_uint max16 st 8; Ok (VInt (fst vs), snd vs)
+  | FQOpt =>
+      do ts <- get_remaining st 1;
+      match fst ts with
+      | [] => Ok (VBytes [], snd ts)
+      | t :: _ => do t' <- unescape_to_bytes t; Ok (VBytes (tvalue t'), snd ts)
+      end
+  | FHexStr => do ts <- get_string st 0; do e <- utf8_encode (fst ts); do b <- unhexlify e; Ok (VBytes b, snd ts)
+  | FB64Tok _ => do ts <- get_string st 0; do e <- utf8_encode (fst ts); do b <- b64decode e; Ok (VBytes b, snd ts)
+  | FNamesRest => do ts <- get_remaining st 0; do ns <- map_res (as_name c) (fst ts); Ok (VNames ns, snd ts)
+  | FNameNoRel => do ns <- get_name (mkPctx None false None) st; Ok (VName (fst ns), snd ns)
+  | FB64RestOpt =>
+      do hs <- concatenate_remaining_identifiers st true;
+      do e <- utf8_encode (fst hs); do b <- b64decode e; Ok (VBytes b, snd hs)
   | FBitmap =>
       do ts <- get_remaining st 0;
       do types <- map_res bitmap_token_type (fst ts);
@@ -797,6 +827,10 @@ Definition ctor_field (f : tfield) (v : tval) : res tval :=
   | FSigTime, VInt z => if (z <? 0) || (z >? 4294967295) then Internal iValueError else Ok v
   | FEui n, VBytes b => if negb (Nat.eqb (length b) n) then Lib TokM.eFormError else Ok v
   | FFmtHex, VBytes t => if fmthex_ok t then Ok v else Internal iValueError
+  | FQOpt, VBytes b => if zlen b >? 255 then Internal iValueError else Ok v
+  | FHexStr, VBytes b => if zlen b >? 255 then Internal iValueError else Ok v
+  | FB64Tok maxlen, VBytes b => if zlen b >? maxlen then Internal iValueError else Ok v
+  | FB64RestOpt, VBytes b => if zlen b >? 65535 then Internal iValueError else Ok v
   | FAlg, VBytes t => do z <- alg_from_text t; Ok (VInt z)
   | FTag, VBytes b =>
       if (zlen b >? 255) || is_nil b || negb (forallb is_alnum b) then Internal iValueError else Ok v
@@ -877,6 +911,9 @@ Definition schema_of (rdtype : Z) : option (list tfield) :=
   else if rdtype =? 61 then Some [FB64Rest false]                                  (* OPENPGPKEY *)
   else if (rdtype =? 104) || (rdtype =? 106) then Some [u16; FFmtHex]               (* NID L64 *)
   else if rdtype =? CH_A then Some [FName; FOct16]                                 (* A in class CH *)
+  else if rdtype =? 20 then Some [cstr; FQOpt]                                     (* ISDN *)
+  else if rdtype =? 55 then Some [u8; FHexStr; FB64Tok 65535; FNamesRest]          (* HIP (text order) *)
+  else if rdtype =? 249 then Some [FNameNoRel; u32; u32; u16; u16; FB64Tok 65535; FB64RestOpt]  (* TKEY *)
   else if rdtype =? 108 then Some [FEui 6]                                         (* EUI48 *)
   else if rdtype =? 109 then Some [FEui 8]                                         (* EUI64 *)
   else if (rdtype =? 16) || (rdtype =? 99) || (rdtype =? 258) || (rdtype =? 56)
@@ -925,12 +962,20 @@ Definition obs_of_val (v : tval) : obs :=
   | VName n => obs_of_name n
   | VStrs l => L (map B l)
   | VWindows ws => L (map (fun w => L [I (fst w); B (snd w)]) ws)
+  | VNames l => L (map obs_of_name l)
   end.
 
 Fixpoint windows_of_obs (l : list obs) : option (list bwindow) :=
   match l with
   | [] => Some []
   | L [I w; B b] :: r => match windows_of_obs r with Some t => Some ((w, b) :: t) | None => None end
+  | _ => None
+  end.
+
+Fixpoint names_of_obs (l : list obs) : option (list name) :=
+  match l with
+  | [] => Some []
+  | L n :: r => match name_of_obs n, names_of_obs r with Some a, Some b => Some (a :: b) | _, _ => None end
   | _ => None
   end.
 
@@ -958,6 +1003,12 @@ Fixpoint vals_of_obs (fs : list tfield) (os : list obs) : option (list tval) :=
           | FEui _, B b => Some (VBytes b :: r)
           | FFmtHex, B b => Some (VBytes b :: r)
           | FOct16, I z => Some (VInt z :: r)
+          | FQOpt, B b => Some (VBytes b :: r)
+          | FHexStr, B b => Some (VBytes b :: r)
+          | FB64Tok _, B b => Some (VBytes b :: r)
+          | FB64RestOpt, B b => Some (VBytes b :: r)
+          | FNameNoRel, L l => match name_of_obs l with Some n => Some (VName n :: r) | None => None end
+          | FNamesRest, L l => match names_of_obs l with Some ns => Some (VNames ns :: r) | None => None end
           | FAlg, I z => Some (VInt z :: r)
           | FBitmap, L l => match windows_of_obs l with Some w => Some (VWindows w :: r) | None => None end
           | FName, L l => match name_of_obs l with Some n => Some (VName n :: r) | None => None end
